@@ -1127,7 +1127,7 @@ func (env *c20env) random(rng *rand.Rand) {
 			cases = nil
 		}
 	}
-	ntrees := vN(200, 3000)
+	ntrees := vN(200, 2000)
 	for i := 0; i < ntrees; i++ {
 		flush(false)
 		// one tree per format: the generator depends on the format only where a construct is avoided
@@ -1145,7 +1145,7 @@ func (env *c20env) random(rng *rand.Rand) {
 			hostile = append(hostile, cl)
 		}
 	}
-	ncombo := vN(180, 3000)
+	ncombo := vN(180, 2000)
 	avoided := 0
 	for i := 0; i < ncombo; i++ {
 		flush(false)
@@ -1820,7 +1820,7 @@ func (env *c20env) conc(rng *rand.Rand) {
 	id := 0
 	// (a) fixed scenario = probe for the lock-identity defect: first holder fails while a second waits,
 	//     a third arrives while the second is downloading (req2) or extracting (resp2).
-	nprobe := vN(8, 20)
+	nprobe := vN(8, 16)
 	for i := 0; i < nprobe; i++ {
 		r := c20round{ID: id, Entry: []string{"libsub", "lib", "libsub", "esp"}[i%4], Format: c20formats[i%3], Scenario: "failfirst-latejoiner", Big: true}
 		if r.Entry == "esp" {
@@ -1836,7 +1836,7 @@ func (env *c20env) conc(rng *rand.Rand) {
 		env.runRound(srv, r, rng)
 	}
 	// (b) random rounds
-	nrand := vN(30, 150)
+	nrand := vN(30, 100)
 	lockOpen := env.open["C20-lock-identity"]
 	starts := []string{"now", "now", "req1", "resp1", "req2", "visible", "visible"}
 	faults := []string{"ok", "ok", "ok", "slow", "stall", "fail500", "truncate"}
@@ -1881,7 +1881,7 @@ func (env *c20env) conc(rng *rand.Rand) {
 	}
 	// (c) fixed scenario: requesters that call the instant the destination becomes visible (a destination
 	//     published before it is complete shows up here as incomplete-at-return)
-	nvis := vN(6, 18)
+	nvis := vN(6, 12)
 	for i := 0; i < nvis; i++ {
 		r := c20round{ID: id, Scenario: "visible-joiner", N: 3, Big: true, Starts: []string{"now", "visible", "visible"}, Faults: []string{"ok", "ok", "ok"}}
 		id++
